@@ -594,7 +594,7 @@ def _two_threads(seed):
                 plan['watch'] = o
                 idle[o].clear()
                 gate[o].release()            # the other thread runs now ...
-                if not seen.wait(10):        # ... until it is at the send lock or has written a line
+                if not wait(seen):           # ... until it is at the send lock or has written a line
                     failed.append('the released thread neither reached the send lock nor wrote a line')
                 plan['watch'] = None
             frags.append({'ev': 'frag', 'th': me, 'half': 2, 'bytes': data[half:].decode('latin-1')})
@@ -603,12 +603,20 @@ def _two_threads(seed):
 
     sock = Sock([x + b'\n' for x in lines])
     h = w.connect(sock)
+    out = {}
+
+    def wait(ev):
+        for _ in range(100):
+            if ev.wait(0.1):
+                return True
+            if 'reason' in out:          # the handler has ended: nobody will arrive
+                return ev.wait(0.2)
+        return False
 
     def arrived(name):
         if plan['watch'] == name:
             seen.set()
     h.send_lock = SpyLock(h.send_lock, arrived)
-    out = {}
 
     def updater():
         for i in range(nupd):
@@ -620,9 +628,9 @@ def _two_threads(seed):
     treq = threading.Thread(target=lambda: out.update(reason=w.serve(h)), name='req', daemon=True)
     tupd = threading.Thread(target=updater, name='upd', daemon=True)
     treq.start()
-    ok = idle['req'].wait(10)
+    ok = wait(idle['req'])
     tupd.start()
-    ok = ok and idle['upd'].wait(10)
+    ok = ok and wait(idle['upd'])
     budget = {'req': len(lines) - 1, 'upd': nupd}
     turns = []
     while ok and not failed and any(budget.values()):
@@ -633,18 +641,21 @@ def _two_threads(seed):
         budget[v] -= 1
         idle[v].clear()
         gate[v].release()
-        ok = idle[v].wait(10)
+        ok = wait(idle[v])
         used = want and not plan['interrupt']
         plan['interrupt'] = False
         if used:
             budget[o] -= 1
-            ok = ok and idle[o].wait(10)
+            ok = ok and wait(idle[o])
         turns.append([v, used])
     gate['req'].release()                    # end of input
     treq.join(10)
+    for _ in range(nupd + 1):
+        gate['upd'].release()                # (only needed when the scenario was cut short)
     tupd.join(10)
     h.send_lock = h.send_lock.real
-    if not ok or failed or treq.is_alive() or tupd.is_alive():
+    stuck = not ok or bool(failed) or treq.is_alive() or tupd.is_alive()
+    if stuck and out.get('reason', 'eof') == 'eof':
         raise MachineryError(f'two-thread scenario stuck (seed {seed}): {failed} turns={turns}')
     h.finish()
     return {'trace': [{k: f[k] for k in ('ev', 'th', 'half')} for f in frags], 'raw': frags,
